@@ -123,6 +123,8 @@ def run(ctx, spec):
             exp.append(('fq2.is_even', 'bool ' + str(x[0] % 2 == 0).lower(), ('is_even', x), nt(x)))
             lines.append('_ fq2.eq %s %s' % (f2hex(x), f2hex(y)))
             exp.append(('fq2.eq', 'bool ' + str(x == y).lower(), ('eq', x, y), nt(x, y)))
+            lines.append('_ fq2.ne %s %s' % (f2hex(x), f2hex(y)))
+            exp.append(('fq2.eq', 'bool ' + str(x != y).lower(), ('ne', x, y), nt(x, y)))
         elif kind == 'axiom':
             X, Y, Z = f2hex(x), f2hex(y), f2hex(z)
             which = rng.randrange(4)
